@@ -42,10 +42,21 @@ package ice
 //@   ensures lite-inner-controlled: a.lite && a.isControlling == 0 ==> istype(cast(a.selector, *liteSelector).pairCandidateSelector, *controlledSelector)
 //@   ensures role-unchanged: a.isControlling == old(a.isControlling)
 
+// C17: the pair priority takes the controlling side from the pair's role flag, so the flag of every listed
+// pair has to follow the agent's role: when the role becomes known (pairs are formed before Dial/Accept),
+// when it is switched by a role conflict, and for every pair formed later.
+//@ spec macro pairsFollowRole(a *Agent) = (forall i int :: 0 <= i && i < len(a.checklist) ==> a.checklist[i].iceRoleControlling == (a.isControlling != 0))
+//@ func (*Agent).updatePairRoles
+//@   props C17 C05
+//@   modifies fam:H_ice.CandidatePair.iceRoleControlling
+//@   loop 1 invariant done-so-far: rangeindex + 1 <= len(a.checklist) && forall i int :: 0 <= i && i <= rangeindex ==> a.checklist[i].iceRoleControlling == (a.isControlling != 0)
+//@   ensures C17 every-listed-pair-computes-its-priority-for-the-current-role: pairsFollowRole(a)
+
 //@ func (*Agent).handleRoleConflict
-//@   props C05
+//@   props C05 C17
 //@   requires a != nil && msg != nil && remoteTieBreaker != nil
-//@   modifies a.isControlling, a.selector, a.selectorLock, a.gSent, fam:H_ice.candidateBase.lastSent
+//@   modifies a.isControlling, a.selector, a.selectorLock, a.gSent, fam:H_ice.candidateBase.lastSent, fam:H_ice.CandidatePair.iceRoleControlling
+//@   ensures C17 a-role-switch-re-ranks-the-listed-pairs: !keeps(old(a.isControlling) != 0, a.tieBreaker, remoteTieBreaker.Tiebreaker) ==> pairsFollowRole(a)
 //@   site call Build#1 assert error-response: unbox(arg0[1], stun.MessageType) == stun.BindingError
 //@   site call Build#1 assert code-487: unbox(arg0[2], stun.ErrorCodeAttribute).Code == 487
 //@   site call Build#1 assert signed-with-local-pwd: unbox(arg0[3], stun.MessageIntegrity).base == stiKey(a.localPwd)
